@@ -430,4 +430,60 @@ def rs256 (k n : Nat) : Code where
     let xs := ids.map (fun i => pts.getD i 0)
     (pts.take k).map (fun x => interpAt xs blocks x)
 
+/-! ### the caller contract: what each caller hands to `CRSDecoder.decode`
+
+Separate transcriptions of the *selection* step of the two callers (which decoder object, which
+blocks, which ids, in which order).  `immDecodeBlocks` / `mutDecodeBlocks` are proved equal to
+"selection, then `decDecode`, then join/trim" in `Tahoe.Props.C36`; the driver prints the selection
+and the harness compares it with the arguments the real `CRSDecoder.decode` receives. -/
+
+/-- `DownloadNode._decode_blocks`: the decoder (the node's own `_codec` for full segments; for the
+tail segment a decoder built from *this node's* `tail_segment_padded, k, N`) and the two parallel
+lists built by one loop over `blocks.items()`. -/
+def immCodecCall (k n segSize : Nat) (sz : ImmSizes) (segnum : Nat) (blocks : List (Nat × Block)) :
+    Except String (DecParams × List Block × List Nat) :=
+  let tail := segnum + 1 == sz.numSegments
+  match decSetParams (if tail then sz.tailSegmentPadded else segSize) k n with
+  | .error e => .error e
+  | .ok codec =>
+    if blocks.any (fun b => b.2.length != (if tail then sz.tailBlockSize else sz.blockSize)) then
+      .error "AssertionError"
+    else .ok (codec, blocks.map (·.2), blocks.map (·.1))
+
+/-- `Retrieve._decode_blocks`: both lists come from one loop over the merged dict and are cut to
+the first `k` with the same slice. -/
+def mutCodecCall (d : MutDecoder) (segnum : Nat) (blocks : List (Nat × Block)) :
+    Except String (DecParams × List Block × List Nat) :=
+  if (blocks.map (·.1)).length < d.k then .error "AssertionError"
+  else .ok (if segnum + 1 == d.numSegments then d.tailDecoder else d.segDecoder,
+            (blocks.map (·.2)).take d.k, (blocks.map (·.1)).take d.k)
+
+/-! ### zfec's matrices (coefficient level of `rs256`) -/
+
+/-- the `n × k` systematic encoding matrix: row `i` holds the Lagrange basis values at `x_i` -/
+def encMatrix (k n : Nat) : List (List UInt8) :=
+  let pts := rsPoints n
+  pts.map (fun x => (List.range k).map (fun j => lagrangeCoeff (pts.take k) j x))
+
+/-- the `k × |ids|` decoding matrix for blocks with share numbers `ids` -/
+def decMatrix (k : Nat) (ids : List Nat) : List (List UInt8) :=
+  let pts := rsPoints 256
+  let xs := ids.map (fun i => pts.getD i 0)
+  (pts.take k).map (fun x => (List.range ids.length).map (fun s => lagrangeCoeff xs s x))
+
+def gfDot (r c : List UInt8) : UInt8 := (List.zipWith gfMul r c).foldl (· ^^^ ·) 0
+
+/-- `A · B` over GF(2^8); `B` is given by rows and has `ncols` columns -/
+def matMul (A B : List (List UInt8)) (ncols : Nat) : List (List UInt8) :=
+  A.map (fun r => (List.range ncols).map (fun j => gfDot r (B.map (fun row => row.getD j 0))))
+
+def identityMatrix (k : Nat) : List (List UInt8) :=
+  (List.range k).map (fun m => (List.range k).map (fun j => if m = j then 1 else 0))
+
+def selectRows (E : List (List UInt8)) (ids : List Nat) : List (List UInt8) :=
+  ids.map (fun i => E.getD i [])
+
+/-- the ascending id list encoded by the low `n` bits of `mask` -/
+def idsOfMask (n mask : Nat) : List Nat := (List.range n).filter (fun i => mask.testBit i)
+
 end Tahoe.Codec
